@@ -17,7 +17,9 @@ import (
 	"fmt"
 	"math/rand"
 	"os"
+	"reflect"
 	"sort"
+	"strconv"
 	"strings"
 	"testing/fstest"
 
@@ -52,6 +54,13 @@ type jadv struct {
 	Type  uint64     `json:"type"`
 	Title uint64     `json:"title"`
 	Sev   *jsev      `json:"sev"`
+	// "reflective" advisories (single-field-difference stream): every leaf of detector.Advisory populated by
+	// reflection, then one mutation applied.  Body / ModelID are computed by the harness (independent
+	// structural comparison): equal advisory values <-> equal body ids.
+	Full    bool       `json:"full,omitempty"`
+	Mut     string     `json:"mut,omitempty"`
+	Body    *uint64    `json:"body,omitempty"`
+	ModelID *[2]uint64 `json:"model_id,omitempty"`
 }
 type jfinding struct {
 	Ptr    uint64 `json:"ptr"`
@@ -237,9 +246,228 @@ func observeIndex(det uint64, px *packageindex.PackageIndex) jcall {
 	return c
 }
 
+// ------------------------------------------------------------------------------------------------ reflective advisories
+
+// fillBase populates every leaf reachable from v (pointers allocated, slices with one element).
+func fillBase(v reflect.Value, path string) {
+	switch v.Kind() {
+	case reflect.Ptr:
+		v.Set(reflect.New(v.Type().Elem()))
+		fillBase(v.Elem(), path)
+	case reflect.Struct:
+		for i := 0; i < v.NumField(); i++ {
+			if v.Field(i).CanSet() {
+				fillBase(v.Field(i), joinPath(path, v.Type().Field(i).Name))
+			}
+		}
+	case reflect.String:
+		v.SetString("v:" + path)
+	case reflect.Int, reflect.Int8, reflect.Int16, reflect.Int32, reflect.Int64:
+		v.SetInt(1)
+	case reflect.Uint, reflect.Uint8, reflect.Uint16, reflect.Uint32, reflect.Uint64:
+		v.SetUint(1)
+	case reflect.Float32, reflect.Float64:
+		v.SetFloat(1.5)
+	case reflect.Bool:
+		v.SetBool(true)
+	case reflect.Slice:
+		sl := reflect.MakeSlice(v.Type(), 1, 1)
+		fillBase(sl.Index(0), path+"[0]")
+		v.Set(sl)
+	}
+}
+
+func joinPath(p, f string) string {
+	if p == "" {
+		return f
+	}
+	return p + "." + f
+}
+
+// enumMuts lists every single-leaf mutation of a type: each scalar leaf, nil for each pointer,
+// nil / empty / one-more-element for each slice, empty-instead-of-nil for each map.
+func enumMuts(t reflect.Type, path string) []string {
+	switch t.Kind() {
+	case reflect.Ptr:
+		return append([]string{path + "=nil"}, enumMuts(t.Elem(), path)...)
+	case reflect.Struct:
+		var out []string
+		for i := 0; i < t.NumField(); i++ {
+			if t.Field(i).IsExported() {
+				out = append(out, enumMuts(t.Field(i).Type, joinPath(path, t.Field(i).Name))...)
+			}
+		}
+		return out
+	case reflect.Slice:
+		return append([]string{path + "=nil", path + "=empty", path + "+1"}, enumMuts(t.Elem(), path+"[0]")...)
+	case reflect.Map:
+		return []string{path + "=empty"}
+	case reflect.String, reflect.Bool, reflect.Int, reflect.Int8, reflect.Int16, reflect.Int32, reflect.Int64,
+		reflect.Uint, reflect.Uint8, reflect.Uint16, reflect.Uint32, reflect.Uint64, reflect.Float32, reflect.Float64:
+		return []string{path}
+	}
+	return nil
+}
+
+func nav(v reflect.Value, path string) reflect.Value {
+	if path == "" {
+		return v
+	}
+	for _, seg := range strings.Split(path, ".") {
+		for v.Kind() == reflect.Ptr {
+			v = v.Elem()
+		}
+		idx := strings.HasSuffix(seg, "[0]")
+		seg = strings.TrimSuffix(seg, "[0]")
+		v = v.FieldByName(seg)
+		if idx {
+			v = v.Index(0)
+		}
+	}
+	return v
+}
+
+func applyMut(root reflect.Value, mut string) {
+	switch {
+	case strings.HasSuffix(mut, "=nil"):
+		v := nav(root, strings.TrimSuffix(mut, "=nil"))
+		v.Set(reflect.Zero(v.Type()))
+	case strings.HasSuffix(mut, "=empty"):
+		v := nav(root, strings.TrimSuffix(mut, "=empty"))
+		if v.Kind() == reflect.Map {
+			v.Set(reflect.MakeMap(v.Type()))
+		} else {
+			v.Set(reflect.MakeSlice(v.Type(), 0, 0))
+		}
+	case strings.HasSuffix(mut, "+1"):
+		v := nav(root, strings.TrimSuffix(mut, "+1"))
+		v.Set(reflect.Append(v, v.Index(0)))
+	default:
+		v := nav(root, mut)
+		switch v.Kind() {
+		case reflect.String:
+			v.SetString(v.String() + "'")
+		case reflect.Int, reflect.Int8, reflect.Int16, reflect.Int32, reflect.Int64:
+			v.SetInt(v.Int() + 1)
+		case reflect.Uint, reflect.Uint8, reflect.Uint16, reflect.Uint32, reflect.Uint64:
+			v.SetUint(v.Uint() + 1)
+		case reflect.Float32, reflect.Float64:
+			v.SetFloat(v.Float() + 0.5)
+		case reflect.Bool:
+			v.SetBool(!v.Bool())
+		default:
+			panic("cannot mutate " + mut)
+		}
+	}
+}
+
+// canon is the harness's own structural serialisation (NOT reflect.DeepEqual, NOT the code under test):
+// two values are "equal" for the model iff their canon strings are equal.
+func canon(v reflect.Value) string {
+	switch v.Kind() {
+	case reflect.Ptr:
+		if v.IsNil() {
+			return "nil"
+		}
+		return "&" + canon(v.Elem())
+	case reflect.Struct:
+		var sb strings.Builder
+		sb.WriteString("{")
+		for i := 0; i < v.NumField(); i++ {
+			sb.WriteString(v.Type().Field(i).Name + ":" + canon(v.Field(i)) + ";")
+		}
+		sb.WriteString("}")
+		return sb.String()
+	case reflect.Slice:
+		if v.IsNil() {
+			return "nil[]"
+		}
+		it := make([]string, v.Len())
+		for i := range it {
+			it[i] = canon(v.Index(i))
+		}
+		return "[" + strings.Join(it, ",") + "]"
+	case reflect.Map:
+		if v.IsNil() {
+			return "nilmap"
+		}
+		var it []string
+		for _, k := range v.MapKeys() {
+			it = append(it, canon(k)+"=>"+canon(v.MapIndex(k)))
+		}
+		sort.Strings(it)
+		return "map[" + strings.Join(it, ",") + "]"
+	case reflect.String:
+		return strconv.Quote(v.String())
+	case reflect.Float32, reflect.Float64:
+		return strconv.FormatFloat(v.Float(), 'g', -1, 64)
+	case reflect.Interface:
+		if v.IsNil() {
+			return "nilif"
+		}
+		return canon(v.Elem())
+	default:
+		return fmt.Sprintf("%v", v.Interface())
+	}
+}
+
+// per-case numbering of distinct advisory values and distinct advisory IDs (first appearance)
+type advTable struct {
+	bodies map[string]uint64
+	ids    map[string]uint64
+}
+
+var curTab = &advTable{map[string]uint64{}, map[string]uint64{}}
+
+func number(m map[string]uint64, k string) uint64 {
+	if n, ok := m[k]; ok {
+		return n
+	}
+	n := uint64(len(m))
+	m[k] = n
+	return n
+}
+
+func mkFullAdv(a *jadv) *detector.Advisory {
+	adv := &detector.Advisory{}
+	root := reflect.ValueOf(adv).Elem()
+	fillBase(root, "")
+	if a.ID != nil && adv.ID != nil {
+		adv.ID.Publisher, adv.ID.Reference = fmt.Sprintf("PUB%d", a.ID[0]), fmt.Sprintf("REF-%d", a.ID[1])
+	}
+	if a.Mut != "" {
+		applyMut(root, a.Mut)
+	}
+	return adv
+}
+
+// describeFull computes the model view (body id, model id) of a reflective advisory value
+func describeFull(adv *detector.Advisory, out *jadv) {
+	b := number(curTab.bodies, canon(reflect.ValueOf(adv)))
+	out.Full, out.Body = true, &b
+	out.ModelID = nil
+	if adv.ID != nil {
+		out.ModelID = &[2]uint64{1000, number(curTab.ids, canon(reflect.ValueOf(adv.ID)))}
+	}
+}
+
+func prepareFull(c *jcase) {
+	curTab = &advTable{map[string]uint64{}, map[string]uint64{}}
+	for _, d := range c.Dets {
+		for _, r := range d.Results {
+			if r.Adv != nil && r.Adv.Full {
+				describeFull(mkFullAdv(r.Adv), r.Adv)
+			}
+		}
+	}
+}
+
 func mkAdv(a *jadv) *detector.Advisory {
 	if a == nil {
 		return nil
+	}
+	if a.Full {
+		return mkFullAdv(a)
 	}
 	adv := &detector.Advisory{Type: detector.TypeEnum(a.Type), Title: fmt.Sprintf("title%d", a.Title),
 		Description: fmt.Sprintf("description%d", a.Title), Recommendation: "fix it"}
@@ -261,7 +489,9 @@ func readAdv(a *detector.Advisory) *jadv {
 	}
 	out := &jadv{Type: uint64(a.Type)}
 	if _, err := fmt.Sscanf(a.Title, "title%d", &out.Title); err != nil {
-		panic("unexpected title " + a.Title)
+		// a reflective advisory: numbered by the harness's own structural comparison
+		describeFull(a, out)
+		return out
 	}
 	if a.ID != nil {
 		var id [2]uint64
@@ -418,6 +648,13 @@ func advCoq(a *jadv) string {
 	if a == nil {
 		return "None"
 	}
+	if a.Full {
+		id := "None"
+		if a.ModelID != nil {
+			id = fmt.Sprintf("(Some (%s, %s))", cf.N(a.ModelID[0]), cf.N(a.ModelID[1]))
+		}
+		return fmt.Sprintf("(Some (mkAdv %s 99 %s None))", id, cf.N(*a.Body))
+	}
 	id := "None"
 	if a.ID != nil {
 		id = fmt.Sprintf("(Some (%s, %s))", cf.N(a.ID[0]), cf.N(a.ID[1]))
@@ -486,6 +723,7 @@ func caseCoq(c *jcase) string {
 }
 
 func execute(c *jcase) {
+	prepareFull(c)
 	c.Run = execRun(c)
 	c.Scan = nil
 	if !c.Ctx0 {
@@ -717,6 +955,29 @@ func (g *gen) random(n int, alias bool) {
 	}
 }
 
+// single-field-difference stream: for every leaf of detector.Advisory found by reflection (and nil for every
+// pointer), two findings with the same advisory ID whose advisories differ in exactly that leaf.
+func (g *gen) singleField() []string {
+	muts := enumMuts(reflect.TypeOf(detector.Advisory{}), "")
+	full := func(mut string) *jadv { return &jadv{Full: true, ID: &[2]uint64{0, 0}, Mut: mut} }
+	f := func(ptr uint64, mut string) jfinding { return jfinding{Ptr: ptr, Adv: full(mut), Extra: ptr, Target: 1} }
+	det := func(name uint64, fs ...jfinding) jdet { return jdet{Name: name, Version: 1, Results: fs} }
+	add := func(ds ...jdet) {
+		fs, sa := g.randInv(3)
+		g.add(&jcase{Stream: "single-field-difference", FsPkgs: fs, SaPkgs: sa, Dets: ds})
+	}
+	add(det(1, f(1, "")), det(2, f(2, ""))) // control: two separately allocated equal advisories
+	add(det(1, f(1, ""), f(2, "")))
+	for _, m := range muts {
+		add(det(1, f(1, "")), det(2, f(2, m)))
+		add(det(1, f(1, m)), det(2, f(2, "")))
+		add(det(1, f(1, ""), f(2, m)))
+		add(det(1, f(1, m)), det(2, f(2, m))) // the same mutation twice: equal again
+		add(det(1, f(1, "")), det(2, f(2, m)), det(3, f(3, "")))
+	}
+	return muts
+}
+
 func writeOut(cases []*jcase, vpath, jpath string) {
 	var sb strings.Builder
 	sb.WriteString("(* GENERATED by harness/cmd/detect: inputs + what detector.Run / scalibr.Scan did *)\n")
@@ -786,9 +1047,10 @@ func main() {
 
 	g := &gen{rng: rand.New(rand.NewSource(*seed))}
 	g.exhaustiveIndex(*maxPkgs)
+	muts := g.singleField()
 	g.exhaustiveDetectors(*maxDet, *maxTotal)
 	g.random(*nrandom, false)
 	g.random(*nalias, true)
 	writeOut(g.cases, *out, *jsonl)
-	fmt.Printf("cases=%d inventories=%d\n", len(g.cases), len(g.invs))
+	fmt.Printf("cases=%d inventories=%d single_field_mutations=%d: %s\n", len(g.cases), len(g.invs), len(muts), strings.Join(muts, " "))
 }
